@@ -5,7 +5,7 @@
 // then by id), so a schedule is a vector of small integers; the executed decisions (alternatives, chosen) are
 // recorded, which is what a stateless DFS needs to backtrack. Threads are discovered through the hooks:
 //   10 SPAWN (creator, before pthread_create)   11 ENTRY (new thread)   12 PRE_FINISH   13 EXIT
-//   14 JOIN (before pthread_join; parks the joiner until the target's EXIT)
+//   14 JOIN (before pthread_join, obj = the joined pthread_t; parks the joiner until the target's EXIT)
 //   15 FLAG_WAIT / 16 FLAG_RESUME / 17 FLAG_SET  (creator's spin on the context hand-over flag)
 //   1/2 before atomicInc/atomicDec, 3 after
 // Anything that blocks inside the OS without a hook (mutex, semaphore, condition) must not be used under the scheduler.
@@ -76,6 +76,7 @@ struct Th {
 	const volatile void* waitobj;
 	sem_t sem;
 	Foot parked; // the point this thread last announced (where it is waiting when it does not hold the token)
+	pthread_t ptid = 0;
 };
 
 struct Decision {
@@ -378,6 +379,7 @@ inline void point(int kind, const volatile void* obj)
 			return;
 		}
 		Th* t = new Th{(int)s.th.size(), obj, RUNNABLE, 0, {}, Foot{11, obj}};
+		t->ptid = pthread_self();
 		sem_init(&t->sem, 0, 0);
 		s.th.push_back(t);
 		me = t->id;
@@ -413,33 +415,36 @@ inline void point(int kind, const volatile void* obj)
 	case 13: { // EXIT: this thread takes no further part
 		s.th[me]->st = DONE;
 		for (Th* t : s.th)
-			if (t->st == BLOCKED_JOIN && t->waitobj == obj)
+			if (t->st == BLOCKED_JOIN && t->waitobj == (const volatile void*)s.th[me]->ptid)
 				t->st = RUNNABLE;
 		int self = me;
 		me = -1;
 		block_and_switch(self, false);
 		break;
 	}
-	case 14: { // JOIN
+	case 14: { // JOIN: first a decision (others may run, even to completion, before the join is evaluated)
+		if (s.decide_mask & (1u << kind))
+			decision_point(me);
 		wait_pending();
-		Th* target = find_by_obj(obj);
+		Th* target = 0; // the hook passes the joined thread's pthread_t
+		for (int i = (int)s.th.size() - 1; i >= 0 && !target; i--)
+			if ((const volatile void*)s.th[i]->ptid == obj && i != 0)
+				target = s.th[i];
 		if (target && target->st != DONE) {
 			s.th[me]->st = BLOCKED_JOIN;
 			s.th[me]->waitobj = obj;
 			block_and_switch(me, true);
 		}
-		else if (s.decide_mask & (1u << kind))
-			decision_point(me);
 		break;
 	}
 	case 15: // FLAG_WAIT
+		if (s.decide_mask & (1u << kind))
+			decision_point(me);
 		if (!s.flags_set.count(obj)) {
 			s.th[me]->st = BLOCKED_FLAG;
 			s.th[me]->waitobj = obj;
 			block_and_switch(me, true);
 		}
-		else if (s.decide_mask & (1u << kind))
-			decision_point(me);
 		break;
 	case 16: // FLAG_RESUME
 		s.flags_set.erase(obj);
